@@ -210,6 +210,12 @@ def drop_prefix(parts, off):
             off = rest
         else:
             break
+    if not z3.is_int_value(off) and ORACLE[0] is not None:
+        # concretise a small residual offset that is only known through the path condition
+        for kk in range(0, 4):
+            if _entails(off == kk):
+                off = z3.IntVal(kk)
+                break
     return parts, off
 
 
